@@ -20,7 +20,7 @@ use serde_json::{json, Value};
 use std::collections::HashMap;
 use std::sync::{Arc, Barrier};
 
-const OPS: [&str; 3] = ["enforce", "prepare", "compare"];
+const OPS: [&str; 5] = ["enforce", "prepare", "compare", "allowsId", "allowsFf"];
 const FORMS: [&str; 3] = ["static", "inst", "long"];
 
 const FIXED: [&str; 34] = [
@@ -81,6 +81,10 @@ fn key(p: &str, op: &str, i: usize) -> String {
 }
 
 fn call(p: &str, op: &str, form: &str, kind: ArgKind, inputs: &[String], i: usize) -> Value {
+    // the string classes directly (the profile name only multiplies the number of calls)
+    if op == "allowsId" || op == "allowsFf" {
+        return call_allows(&op[6..], &inputs[i]);
+    }
     let args: Vec<String> = if op == "compare" {
         vec![inputs[i].clone(), inputs[(i + 1) % inputs.len()].clone()]
     } else {
